@@ -28,7 +28,7 @@ CFG = "SPECIFICATION Spec\nCONSTRAINT Mark\nPOSTCONDITION Post\nCHECK_DEADLOCK F
 KINDS = ["text", "bytes", "path", "url", "textfile", "binfile", "element", "tree", "resource"]
 
 
-NSMAP = {"t": "urn:T", "a": "urn:A", "f": "urn:F", "o": "urn:O", "p": "urn:P", "q": "urn:P",
+NSMAP = {"t": "urn:T", "a": "urn:A", "f": "urn:F", "o": "urn:O", "p": "urn:P", "q": "urn:P", "x": "urn:X",
          "xsi": "http://www.w3.org/2001/XMLSchema-instance", "xs": cm.XS}
 _PFX = None
 
@@ -239,6 +239,7 @@ def run(ctx: Ctx):
     chosen = double + select([c for c in cases if c["origin"] != "validator2"],
                              2400 if thorough else 200, ctx.seed)
     jobs = [("doc", c, ver) for c in chosen for ver in ("1.0", "1.1")]
+    jobs += [("doc", c, "1.1") for c in pool.inheritable_cases(ctx, 3 if thorough else 9)]
     jobs += [("cli", k, ver) for k in (0, 1, 2, 255, 256, 257, 512) for ver in ("1.0", "1.1")]
     results = ctx.pmap(work, jobs)
     trs = [{"ev": r["ev"]} for r in results]
